@@ -314,7 +314,6 @@ fn ck_rep_roundtrip(shape: &[usize], n: usize, absent: bool, has_label: bool, ha
     assert!(same_u8(&back.data, &data));
     assert!(back.meta.label == label);
     assert!(back.meta.map_keys == keys);
-    assert!(!back.meta.flags.is_boolean());
 }
 //@ id=C17.e3.rep.roundtrip.scalar.nometa props=C17,C09 level=bounded tier=quick budget=600 bound="byte array of shape [], first element symbolic, the others fixed; label and map keys as opaque symbolic tokens; all 16 flag sets" desc="Array -> ArrayRep -> Array keeps shape, elements, label and map keys: shape [], meta nometa"
 #[kani::proof]
@@ -496,14 +495,14 @@ fn h_rep_rt_rank3_map() {
 fn h_rep_rt_rank3_label_map() {
     ck_rep_roundtrip(&[1, 1, 2], 2, false, true, true);
 }
-//@ id=C17.e3.rep.canary props=C17 level=bounded tier=quick expect=fail budget=600 desc="deliberately false: the boolean mark survives serialisation"
+//@ id=C17.e3.rep.canary props=C17 level=bounded tier=quick expect=fail budget=600 desc="deliberately false: a label is lost on the way through the representation"
 #[kani::proof]
 #[kani::unwind(10)]
 fn h_rep_canary() {
-    let meta = ArrayMeta(Some(Arc::new(ArrayMetaInner { flags: ArrayFlags::BOOLEAN, ..Default::default() })));
+    let meta = ArrayMeta(Some(Arc::new(ArrayMetaInner { label: Some(7), ..Default::default() })));
     let arr = Array { shape: Shape(vec![2]), data: Data(vec![0u8, 1]), meta };
     let back: Array<u8> = Array::from(ArrayRep::from(arr));
-    assert!(back.meta.flags.is_boolean());
+    assert!(back.meta.label.is_none());
 }
 // ---------------- first / last index of the minimum / maximum row (optimised `first rise`, `first fall`, `last rise`, `last fall`) ----------------
 /// reference: position of the first / last minimal / maximal row under the array order
@@ -808,37 +807,37 @@ fn ck_classify_family_on(a: Array<u8>, data: Vec<u8>, shape: &[usize], which: u8
         }
     }
 }
-//@ id=C08.e3.classify.list3 props=C08,C06,C05,C09 level=bounded tier=quick budget=900 bound="byte array of shape [3], all truthful mark sets, no map keys" desc="Array::classify agrees with its definition (first appearances, in order) and gives the same answer with and without truthful sortedness marks"
+//@ id=C08.e3.classify.list3 props=C08,C06,C09 level=bounded tier=quick budget=900 bound="byte array of shape [3], all truthful mark sets, no map keys" desc="Array::classify agrees with its definition (first appearances, in order) and gives the same answer with and without truthful sortedness marks"
 #[kani::proof]
 #[kani::unwind(8)]
 fn h_classify_list3() {
     ck_classify_family(&[3], 3, 0);
 }
-//@ id=C08.e3.classify.mat2x2 props=C08,C06,C05,C09 level=bounded tier=thorough budget=900 bound="byte array of shape [2, 2], all truthful mark sets, no map keys" desc="Array::classify agrees with its definition (first appearances, in order) and gives the same answer with and without truthful sortedness marks"
+//@ id=C08.e3.classify.mat2x2 props=C08,C06,C09 level=bounded tier=thorough budget=900 bound="byte array of shape [2, 2], all truthful mark sets, no map keys" desc="Array::classify agrees with its definition (first appearances, in order) and gives the same answer with and without truthful sortedness marks"
 #[kani::proof]
 #[kani::unwind(8)]
 fn h_classify_mat2x2() {
     ck_classify_family(&[2, 2], 4, 0);
 }
-//@ id=C08.e3.count_unique.list3 props=C08,C06,C05,C09 level=bounded tier=quick budget=900 bound="byte array of shape [3], all truthful mark sets, no map keys" desc="Array::count_unique agrees with its definition (first appearances, in order) and gives the same answer with and without truthful sortedness marks"
+//@ id=C08.e3.count_unique.list3 props=C08,C06,C09 level=bounded tier=quick budget=900 bound="byte array of shape [3], all truthful mark sets, no map keys" desc="Array::count_unique agrees with its definition (first appearances, in order) and gives the same answer with and without truthful sortedness marks"
 #[kani::proof]
 #[kani::unwind(8)]
 fn h_count_unique_list3() {
     ck_classify_family(&[3], 3, 1);
 }
-//@ id=C08.e3.count_unique.mat2x2 props=C08,C06,C05,C09 level=bounded tier=thorough budget=900 bound="byte array of shape [2, 2], all truthful mark sets, no map keys" desc="Array::count_unique agrees with its definition (first appearances, in order) and gives the same answer with and without truthful sortedness marks"
+//@ id=C08.e3.count_unique.mat2x2 props=C08,C06,C09 level=bounded tier=thorough budget=900 bound="byte array of shape [2, 2], all truthful mark sets, no map keys" desc="Array::count_unique agrees with its definition (first appearances, in order) and gives the same answer with and without truthful sortedness marks"
 #[kani::proof]
 #[kani::unwind(8)]
 fn h_count_unique_mat2x2() {
     ck_classify_family(&[2, 2], 4, 1);
 }
-//@ id=C08.e3.unique.list3 props=C08,C06,C05,C09 level=bounded tier=quick budget=900 bound="byte array of shape [3], all truthful mark sets, no map keys" desc="Array::unique agrees with its definition (first appearances, in order) and gives the same answer with and without truthful sortedness marks"
+//@ id=C08.e3.unique.list3 props=C08,C06,C09 level=bounded tier=quick budget=900 bound="byte array of shape [3], all truthful mark sets, no map keys" desc="Array::unique agrees with its definition (first appearances, in order) and gives the same answer with and without truthful sortedness marks"
 #[kani::proof]
 #[kani::unwind(8)]
 fn h_unique_list3() {
     ck_classify_family(&[3], 3, 2);
 }
-//@ id=C08.e3.unique.mat2x2 props=C08,C06,C05,C09 level=bounded tier=thorough budget=900 bound="byte array of shape [2, 2], all truthful mark sets, no map keys" desc="Array::unique agrees with its definition (first appearances, in order) and gives the same answer with and without truthful sortedness marks"
+//@ id=C08.e3.unique.mat2x2 props=C08,C06,C09 level=bounded tier=thorough budget=900 bound="byte array of shape [2, 2], all truthful mark sets, no map keys" desc="Array::unique agrees with its definition (first appearances, in order) and gives the same answer with and without truthful sortedness marks"
 #[kani::proof]
 #[kani::unwind(8)]
 fn h_unique_mat2x2() {
